@@ -47,7 +47,9 @@ def run(ctx):
                 "in one call, all histories of valid/near-valid adds to depth 2/3, random depth-7 behaviours from tlc "
                 "-simulate; Modules.add / ExtraFiles.add / dump_for_tree likewise from BuildersGen.tla; every behaviour "
                 "replayed on the real classes comparing exception class and the whole mapping after each call; recorded Rpms executions "
-                "(repository tests + seeded random driver: name spellings, deletions, reloads) validated by TLC against Trace_Rpms.tla. "
+                "(repository tests + seeded random driver: name spellings, deletions, reloads) validated by TLC against Trace_Rpms.tla; "
+                "recorded Modules.add / ExtraFiles.add / dump_for_tree executions (tests + driver: every UID spelling, tuples, caller-kept "
+                "lists, bases that only textually prefix) against Trace_Builders.tla with the four action properties. "
                 "non-trivial = distinct history")
     ctx.assumptions += ["argument classes are represented by 2 name tables x 3 arch tables, rotated"]
     cases = rpms_cases(ctx, "C12")
@@ -57,6 +59,9 @@ def run(ctx):
     # code -> spec: recorded executions (the repository's tests, a seeded random driver with larger pools) against Trace_Rpms.tla
     from . import rpms_traces
     rpms_traces.validate(ctx)
+    # ... and the Modules / ExtraFiles executions against Trace_Builders.tla (full snapshots: linear search)
+    from . import builders_traces
+    builders_traces.validate(ctx)
 
 
 def replay(info):
@@ -65,4 +70,7 @@ def replay(info):
     if info["kind"] == "rpms-trace":
         from . import rpms_traces
         return rpms_traces.replay(info)
+    if info["kind"] == "builders-trace":
+        from . import builders_traces
+        return builders_traces.replay(info)
     return B.replay(info)
